@@ -384,6 +384,11 @@ class debug_logging:
     def __enter__(self):
         if self.active:
             import logging
+            try:
+                # (the package configures its loggers when it is imported)
+                import valjean  # noqa: F401  pylint: disable=unused-import
+            except ImportError:
+                pass
             logger = logging.getLogger('valjean')
             self.saved = (logger.level, logger.handlers[:], logger.propagate,
                           logging.root.manager.disable)
